@@ -55,8 +55,12 @@ class StateEvaluator(QuantifierSimplifier):
             _variable_assignments
         )
         self._state = state
-        r = self.walk(expression)
-        self._variable_assignments = None
+        try:
+            r = self.walk(expression)
+        finally:
+            # also when the evaluation fails (e.g. a fluent without a value),
+            # this evaluator must stay usable for the next call
+            self._variable_assignments = None
         assert r.is_constant()
         return r
 
